@@ -1,7 +1,7 @@
 """C06 - approximation guarantee: weight <= (2k-1) x optimum, exact for k = 1, k = 0 rejected."""
 from lib import engine
 from lib.core import tier
-from units import k17_spanner, k17b_bfs
+from units import k17_spanner, k17b_bfs, k18b_closing
 from . import common
 
 LEVEL = "other"
@@ -15,14 +15,15 @@ EXPLANATION = (
     "expresses and is BOUNDED: Contract K18 continued: ret <= (2k-1)*OPT with OPT from the brute-force oracle (cross-checked against an "
     "independent Horton oracle), k=1 => ret = OPT, k=0 => std::runtime_error and no cycle emitted.  BOUNDED "
     "stand-in on the real sequential approximate entry points over the exact-domain set x k in {0,1,2,3,5,n}; "
-    "the carrier contracts are K17 (spanner stretch and girth, C15) and K18b (the cycle emitted for a dropped edge e closes it "
+    "the closing cycle of a dropped edge weighs w(e) + the shortest spanner distance of its endpoints (K18b as a CBMC unit, modular against "
+    "dijkstra's contract K18d); the carrier contracts are K17 (spanner stretch and girth, C15) and K18b (the cycle emitted for a dropped edge e closes it "
     "with a path of retained edges weighing at most (2k-1)*w(e) - the per-edge fact the published bound is summed from; a "
     "change that breaks it is reported although the global ratio may still hold on the small graphs explored).  No deductive content (templates outside "
     "CBMC's reach).")
 
 
 def run(rep):
-    engine.run_units(rep, [u for u in k17_spanner.units(tier()) if u.get("unit", "").startswith(("K18c", "K17a"))] + k17b_bfs.units(tier()))
+    engine.run_units(rep, [u for u in k17_spanner.units(tier()) if u.get("unit", "").startswith(("K18c", "K17a"))] + k17b_bfs.units(tier()) + k18b_closing.units(tier()))
     common.native_filtered(rep, "e3_approx", KINDS, args=["--only", "approx"],
                            functions={"approx_mcb_sva_signed": "bounded", "approx_mcb_sva_fvs_trees": "bounded",
                                       "approx_mcb_sva_iso_trees": "bounded"},
